@@ -16,11 +16,14 @@ FAMS = ["concgo"]
 # ------------------------------------------------------------------ seeded generator of shapes
 def gen_programs(rng, n):
     out = []
-    shapes = [pipeline, fanin, fanout, selectfanin, buffered_only, pingpong, waitgroup]
+    shapes = [pipeline, fanin, fanout, selectfanin, buffered_only, pingpong, waitgroup, closer]
     for i in range(n):
         f = shapes[i % len(shapes)]
         p = f(rng)
         p["shape"] = f.__name__
+        # threads whose body is a single send / close may be started as `go` on a HOST function / builtin
+        p["native"] = [t + 1 for t, th in enumerate(p["threads"]) if t > 0 and len(th) == 1 and th[0]["op"] in ("send", "close") and rng.random() < 0.6]
+        p["style"] = rng.randint(0, 2)
         if rng.random() < 0.15:
             p = perturb(rng, p)
         p["id"] = i + 1
@@ -106,6 +109,13 @@ def pingpong(rng):
     return {"chans": chans, "threads": [main, t2]}
 
 
+def closer(rng):
+    """main sends n items into a buffered channel, a goroutine closes it, main drains by range (go close(c))"""
+    n = rng.randint(1, 3)
+    main = [I("send", ch=1, v=40 + i) for i in range(n)] + [I("go", t=2), I("range", ch=1), I("print")]
+    return {"chans": [n], "threads": [main, [I("close", ch=1)]]}
+
+
 def waitgroup(rng):
     m = rng.randint(1, 3)
     chans = [rng.choice([0, m])]
@@ -139,7 +149,7 @@ def perturb(rng, p):
 
 def tla(v):
     if isinstance(v, dict):
-        return "[" + ", ".join(f"{k} |-> {tla(x)}" for k, x in v.items() if k != "shape") + "]"
+        return "[" + ", ".join(f"{k} |-> {tla(x)}" for k, x in v.items() if k not in ("shape", "native", "style")) + "]"
     if isinstance(v, list):
         return "<<" + ", ".join(tla(x) for x in v) + ">>"
     if isinstance(v, str):
